@@ -39,6 +39,7 @@ AXES = {
                   # the table as the only contribution (no pipe at all)
                   "Impedance=@z_long|VacuumGap=0", "Impedance=@z_equal|VacuumGap=0", "Impedance=@z_short|VacuumGap=0", "Impedance=@z_empty|VacuumGap=0"],
     "InitialDistFile": ["@start_txt", "@start_h5_same", "@start_h5_other", "@start_h5_two", "@start_h5_trunc", "@start_txt_outside",
+                        "@start_h5_norecords", "@start_h5_rank0", "@start_h5_rank1", "@start_h5_rank2", "@start_h5_rank5",
                         "@start_h5_same|InitialDistStep=0", "@start_h5_same|InitialDistStep=7", "@start_h5_same|InitialDistStep=-9", "@start_h5_same|InitialDistStep=-2"],
     "RenormalizeCharge": [-1, 3],
     "outstep": [0, 3],
@@ -85,6 +86,13 @@ def mkfiles(wd, exe_plain):
     for tag, args in (("start_h5_same", ["-s", 8]), ("start_h5_other", ["-s", 12]), ("start_h5_two", ["-s", 8, "-f", 900000, "-I", 1e-3, 1e-3])):
         r = pl.run(exe_plain, args + ["-N", 8, "-T", 0.25, "-n", 1, "--SavePhaseSpace", 1, "--padding", 2, "-G", 0], wd, out=tag + ".h5")
         F[tag] = r["h5"]
+    # results files whose /PhaseSpace/data is not what a results file holds: no record at all, or another rank (a scalar, a vector, a single matrix, five dimensions)
+    h5j = pl.build.build_h5json()
+    F["start_h5_norecords"] = os.path.join(wd, "start_h5_norecords.h5")
+    subprocess.run([h5j, "--write-empty", F["start_h5_norecords"], "8"], check=True)
+    for rk in (0, 1, 2, 5):
+        F["start_h5_rank%d" % rk] = os.path.join(wd, "start_h5_rank%d.h5" % rk)
+        subprocess.run([h5j, "--write-rank", F["start_h5_rank%d" % rk], "8", str(rk)], check=True)
     with open(F["start_h5_same"], "rb") as f:
         b = f.read()
     p = os.path.join(wd, "start_h5_trunc.h5")
